@@ -18,6 +18,7 @@ import (
 //   shift-lines   : a comment block is inserted at the top of every file (all line numbers move)
 //   swap-operands : `a == b` / `a != b` comparisons are mirrored (b == a), `a < b` becomes `b > a`, etc.
 func refactorTree(dir, kind string) error {
+	normaliseCmp = false
 	p, err := Load(dir, false)
 	if err != nil {
 		return err
